@@ -133,6 +133,28 @@ def let_shapes(isa, tier, arities=None):
             for ks in kind_lists(ar, tier):
                 for (nx, pos) in ((1, 0), (3, 2)):
                     out.append({'kind': 'let', 'p': p, 'args': ks, 'nxtors': nx, 'tagpos': pos})
+    for sh in multiblock(isa, tier):
+        out.append({'kind': 'let', 'p': sh[0], 'args': sh[1], 'nxtors': 1, 'tagpos': 0})
+    return out
+
+
+def multiblock(isa, tier):
+    """objects with more than three fields (2..4 linked blocks): (window start, kinds)"""
+    b = BOUNDARY[isa]
+    ars = [4, 5] if tier == 'quick' else [4, 5, 6, 7, 8]
+    out = []
+    for ar in ars:
+        if b is not None:
+            ps = sorted({0, max(0, b - 2), b}) if tier == 'quick' else sorted({0, b - ar, b - 2, b - 1, b, DEEP[isa]} - {-1, -2, -3})
+        else:
+            ps = [0, MAXVARS[isa] - ar - 1]
+        ps = [p for p in ps if p >= 0 and p + ar + 1 <= MAXVARS[isa]]
+        fam = [[('ext' if i % 2 == 0 else 'prd') for i in range(ar)], ['prd'] + ['ext'] * (ar - 1)]
+        if tier != 'quick':
+            fam += [['ext'] * ar, ['prd'] * ar]
+        for p in ps:
+            for ks in fam:
+                out.append((p, ks))
     return out
 
 
@@ -146,6 +168,9 @@ def switch_shapes(isa, tier, arities=None):
                 out.append({'kind': 'switch', 'p': p, 'clauses': [[], ks]})
             if ar == 2:
                 out.append({'kind': 'switch', 'p': p, 'clauses': [['ext'], [], ['prd', 'ext']]})
+    if arities == [0, 1, 2, 3]:
+        for p, ks in multiblock(isa, tier):
+            out.append({'kind': 'switch', 'p': p, 'clauses': [ks]})
     return out
 
 
@@ -157,6 +182,9 @@ def create_shapes(isa, tier, arities=None):
             for ks in kind_lists(ar, tier, full_upto=1):
                 out.append({'kind': 'create', 'p': p, 'env': ks, 'methods': [['ext']]})
                 out.append({'kind': 'create', 'p': p, 'env': ks, 'methods': [['ext', 'cns'], []]})
+    if arities == [0, 1, 2, 3]:
+        for p, ks in multiblock(isa, tier)[::2]:
+            out.append({'kind': 'create', 'p': p, 'env': ks, 'methods': [['ext']]})
     return out
 
 
@@ -195,4 +223,8 @@ def method_shapes(isa, tier, arities=None):
             for ks in kind_lists(ar, tier, full_upto=2):
                 out.append({'kind': 'method', 'env': ks, 'methods': [args], 'i': 0})
                 out.append({'kind': 'method', 'env': ks, 'methods': [[], args, ['ext']], 'i': 1})
+    if arities == [0, 1, 2, 3]:
+        for p, ks in multiblock(isa, tier)[1::2]:
+            args = (['ext', 'prd', 'cns'] + ['ext'] * p)[:p]
+            out.append({'kind': 'method', 'env': ks, 'methods': [args], 'i': 0})
     return out
